@@ -42,10 +42,16 @@ type e4Step struct {
 	Idx    int      `json:"idx"` // submission index (assigned by normalisation)
 }
 
+type e4Inject struct {
+	Conn int `json:"conn"`
+	QoS  int `json:"qos"`
+}
+
 type e4Case struct {
-	Cfg    e4Config  `json:"cfg"`
-	Steps  []e4Step  `json:"steps"`
-	Faults []e4Fault `json:"faults"`
+	Cfg    e4Config   `json:"cfg"`
+	Steps  []e4Step   `json:"steps"`
+	Faults []e4Fault  `json:"faults"`
+	Inject []e4Inject `json:"inject,omitempty"` // inbound messages placed right behind the CONNACK of a connection
 }
 
 type e4Req struct {
@@ -271,6 +277,21 @@ func e4Run(c e4Case) (res *e4Result) {
 	d := &vdialer{b: b, maxRead: c.Cfg.MaxRead}
 	res = &e4Result{Case: c}
 	e := &e4Env{c: c, log: log, b: b, d: d, res: res}
+	perConn := map[int]int{}
+	for _, in := range c.Inject {
+		perConn[in.Conn]++
+		pk := refPacket{Type: rtPublish, Topic: "in/t", QoS: in.QoS, Payload: []byte(fmt.Sprintf("in%d.%d|", in.Conn, perConn[in.Conn]))}
+		if in.QoS > 0 {
+			pk.ID = 1000 + 10*in.Conn + perConn[in.Conn]
+		}
+		b.inject[in.Conn] = append(b.inject[in.Conn], pk)
+		if in.QoS == 2 {
+			b.inject[in.Conn] = append(b.inject[in.Conn], refPacket{Type: rtPubRel, ID: pk.ID})
+		}
+	}
+	for conn := range perConn {
+		b.inject[conn] = append(b.inject[conn], refPacket{Type: rtPublish, Topic: vSyncTopic, QoS: 1, ID: vSyncIDBase + conn})
+	}
 	rc := &RetryClient{DirectlyPublishQoS0: c.Cfg.DirectQoS0, ResponseTimeout: time.Duration(c.Cfg.RespTimeoutMs) * time.Millisecond}
 	rc.OnError = func(err error) {
 		seq := log.add(0, "ONERROR", nil, err.Error())
@@ -428,20 +449,36 @@ func e4Run(c e4Case) (res *e4Result) {
 				b.mu.Unlock()
 			}
 		case "inject":
-			if bc := d.currentConn(); bc != nil {
+			// at a settle point: message + sync marker on the current connection, then wait for the marker
+			if bc := d.currentConn(); bc != nil && connected && !held {
 				b.mu.Lock()
-				pk := refPacket{Type: rtPublish, Topic: s.Topic, QoS: s.QoS, Payload: []byte(fmt.Sprintf("in%d|", s.Idx))}
+				b.syncN++
+				pk := refPacket{Type: rtPublish, Topic: "in/t", QoS: s.QoS, Payload: []byte(fmt.Sprintf("ins%d|", b.syncN))}
 				if s.QoS > 0 {
-					pk.ID = 100 + s.Idx
+					pk.ID = 2000 + b.syncN
 				}
 				bc.send(pk, false, "")
 				if s.QoS == 2 {
 					bc.send(refPacket{Type: rtPubRel, ID: pk.ID}, false, "")
 				}
+				mid := vSyncIDBase + 100 + b.syncN
+				bc.send(refPacket{Type: rtPublish, Topic: vSyncTopic, QoS: 1, ID: mid}, false, "")
 				b.mu.Unlock()
+				vWaitUntil(20*time.Second, func() bool {
+					if lc, pc := bc.mc.isClosed(); lc || pc {
+						return true
+					}
+					for _, ev := range log.snapshot() {
+						if ev.Kind == "W" && ev.Conn == bc.id && ev.Pkt.Type == rtPubAck && ev.Pkt.ID == mid {
+							return true
+						}
+					}
+					return false
+				})
 			}
 		case "handle":
 			atomic.StoreInt32(&e.curH, int32(s.Extra))
+			log.add(0, "HANDLE-START", nil, fmt.Sprintf("handler=%d", s.Extra))
 			cli.Handle(e.handler(s.Extra))
 			log.add(0, "HANDLE", nil, fmt.Sprintf("handler=%d", s.Extra))
 		case "sleep":
